@@ -12,9 +12,9 @@ func corrP(o *Out, cmd string, line string, goOut string, sig string) {
 // ---- C02: wire layout equals the pinned schema (oracle = the Lean renderer of the committed snapshot) ----
 func init() {
 	suites["C02"] = func(o *Out, g *Gen, thorough bool) map[string]any {
-		per := 10
+		per := 24
 		if thorough {
-			per = 200
+			per = 400
 		}
 		var vals []*Val
 		for _, t := range schema.Types {
@@ -189,9 +189,9 @@ func listLen(v *Val) int {
 
 func init() {
 	suites["C03"] = func(o *Out, g *Gen, thorough bool) map[string]any {
-		rounds := 6
+		rounds := 15
 		if thorough {
-			rounds = 120
+			rounds = 300
 		}
 		for r := 0; r < rounds; r++ {
 			for _, op0 := range primOps(g) {
@@ -226,9 +226,9 @@ func init() {
 			}
 		}
 		// message level: every message of the little-endian protocols (BSE, sample generated) and big-endian ones
-		per := 4
+		per := 8
 		if thorough {
-			per = 60
+			per = 100
 		}
 		for _, t := range schema.Types {
 			for i := 0; i < per; i++ {
